@@ -166,6 +166,7 @@ type funcInfo struct {
 }
 
 type codePkg struct {
+	goneInCode map[string]bool // functions absent from the source whose snapshot definition Gen/Code carries
 	tgt     codeTarget
 	fset    *token.FileSet
 	files   []*ast.File
@@ -2120,6 +2121,18 @@ func (cp *codePkg) render(snap map[string]*snapItem) (string, int, int) {
 	varIdx := map[string]int{}
 	for i, v := range varNames {
 		varIdx[v] = i
+	}
+	// definitions emitted from the snapshot for functions that are no longer in the source: a
+	// fallback definition of a later pass may still call them
+	cp.goneInCode = map[string]bool{}
+	inSource := map[string]bool{}
+	for _, fi := range cp.funcs {
+		inSource[fi.name] = true
+	}
+	for name, n := range nodes {
+		if n != nil && n.text != "" && !inSource[name] {
+			cp.goneInCode[name] = true
+		}
 	}
 	for _, fi := range cp.funcs {
 		n := nodes[fi.name]
